@@ -5,6 +5,21 @@ sys.path.insert(0, os.path.dirname(os.path.abspath(__file__)))
 VERIF = os.path.dirname(os.path.dirname(os.path.abspath(__file__)))
 
 CLAIMS = {
+ 'C05': dict(text='Lean theorems (Props/C05.lean over Spec/RefEval.lean): a reference big-step semantics of the core language written from the property (operator first, operands left to right, first signal wins, closures capture environment and module of their creation, parameters bound over the CLOSURE\'s environment, exact arity unless a rest parameter takes the surplus, tail positions keep the depth) is deterministic, and the evaluator model realises EVERY derivation of it (eval_realises_reference): whatever value or signal the reference assigns, the evaluator computes. Tied to eval/mod.rs by differential execution of generated well- and ill-formed programs against the model and an independent Python reference evaluator.',
+             note='trusted: Lean kernel; the reference semantics as the statement of the property; evaluator model tied by differential execution; the correspondence check',
+             technique='Lean 4 refinement proof (induction on reference derivations) + three-way differential correspondence', ref='5/C05'),
+ 'C06': dict(text='Lean theorems (Props/C06.lean, Props/C06Eval.lean): every panic of the Rust code is an explicit crash outcome of the model, and NONE is reachable: the tokenizer never reaches its unreachable!(), read_internal never runs out of its loop, the 35 simple natives never panic on arguments of any type and shape, and — by induction over the whole evaluator — eval / macroexpand / every native / load-all return a value, a signal or an abort for EVERY well-formed expression, environment and state (metadata cells never nest), preserving well-formedness. Tied to the Rust code by differential fuzzing of every native over a 40-shape pool, random expression trees, and fault-heavy programs under catch_unwind.',
+             note='partial: native stack bytes and allocation failure are outside the model; the two native recursions without a depth counter (`=` on deep nesting, print_atom on long improper lists) are known finding F14',
+             technique='Lean 4 proof (crash-freedom by invariant + fuel induction over all evaluator functions) + differential fuzzing correspondence', ref='5/C06'),
+ 'C09': dict(text='Lean theorems (Props/C09.lean, expand_fixpoint_wf in Props/C06Eval.lean): anything under quote comes back untouched; a macro receives its operands expanded but unevaluated and its result replaces the call; a macro call inside an operator expression is expanded and kept; complete expansion repeats rounds until nothing changes; a round that changed nothing reproduces its output (round_idempotent, on well-formed values; refuted without that hypothesis), so the result of complete expansion is a fixpoint; evaluating a form is evaluating its expansion. Tied to eval/mod.rs by a four-way differential on the real interpreter (eval x, eval of expansion, double expansion, top level) and against the model.',
+             note='"terminates whenever the macros it uses terminate" is conditional by nature; user macros that expand forever diverge',
+             technique='Lean 4 proof (unfolding lemmas + idempotence by fuel induction) + four-way differential correspondence', ref='5/C09'),
+ 'C10': dict(text='Lean theorem print_read (Props/C10.lean): for EVERY datum of 64-bit integers, characters (any Unicode scalar), readable symbols, strings and proper lists nested below the depth limit, the printed text reads back as exactly one datum denoting the original with exactly the following text left over, and prints again to the same text; plus the piecewise round trips (char, int, sym, str) and a witness that the side condition on symbol names is necessary. Tied to print/mod.rs and read/mod.rs by differential execution incl. every scalar value below U+3100 (all scalars in the thorough tier).',
+             note='trusted: Lean kernel; Display/parse of i64 as modelled; reader and printer models tied by differential execution',
+             technique='Lean 4 proof (parser/printer round trip by induction on data) + exhaustive-over-characters differential correspondence', ref='5/C10'),
+ 'C11': dict(text='Lean theorems (Props/C11.lean) on EVERY text: nothing iff blank; text is never invalid; an ok result consumes a non-empty prefix and returns the remaining text unchanged with its exact line and column; successive reads see every form at its position in the whole text; an ok result with non-empty rest is stable under any continuation (shortest prefix); an error stays an error under any continuation; every token is tagged with the position of its first character. Tied to read/mod.rs by exhaustive short strings over a delimiter-rich alphabet + generated texts against the model and an independent reference reader (regex tokenizer + recursive descent).',
+             note='known findings F5 (single quoted flag) and F25 (error position of an offending newline); "incomplete iff proper prefix of a valid form" is checked by the reference reader, not proved',
+             technique='Lean 4 proof (state-machine invariants, prefix stability) + exhaustive differential correspondence with a reference reader', ref='5/C11'),
  'C07': dict(text='Lean theorems (Props/C07.lean): every recursive entry point (eval, macroexpand, print, read, call-native-function) answers above the configured depth with the trappable stackoverflow signal; if-branches, called function bodies and the argument of eval are evaluated at the SAME depth (tail_if, tail_call, tail_eval); a tail-recursive countdown runs for EVERY n at a depth independent of n (countdown_all_n); the printer\'s fuel never strikes before the depth limit. Tied to eval/mod.rs by differential execution of loops far beyond the limit and of non-tail recursion around the limit (first signalling depth must agree).',
              note='partial: bytes of native stack per level are outside the model — measured by running the dev-profile binary on its configured stack for the deepest witness of every recursive path',
              technique='Lean 4 proof (depth accounting, induction on the iteration count) + differential correspondence + process-level stack measurement', ref='5/C07'),
